@@ -105,6 +105,8 @@ var c26Templates = [][]c26Item{
 	c26T("id", 2, "asg", "id", 1, "slash", "lp", "id", 4, "uop"),     // 38 y = x/(z +
 	c26T("id", 2, "asg", "id", 1, "slash", "str", 1),                 // 39 y = x/"a(\"[{"
 	c26T("id", 2, "asg", "id", 1, "slash", "rune", 1),                // 40 y = x/'('
+	c26T("id", 4, "asg", "str", 2, "uop", "rune", 3),                 // 41 z = "t<TAB>ab(" + '<TAB>'
+	c26T("id", 3, "lp", "str", 2, "comma"),                           // 42 Foo("t<TAB>ab(",
 }
 
 // template subsets: the quick BFS uses all of them up to 3 lines
@@ -169,9 +171,9 @@ func c26ItemText(it c26Item, rot int, pos int, line []c26Item) string {
 	case "int":
 		return fmt.Sprint(it.V + 1)
 	case "str":
-		return []string{`"s"`, `"a(\"[{"`}[it.V]
+		return []string{`"s"`, `"a(\"[{"`, "\"t\tab(\""}[it.V] // (2: a raw tab character inside the literal)
 	case "rune":
-		return []string{`'a'`, `'('`, `'"'`}[it.V]
+		return []string{`'a'`, `'('`, `'"'`, "'\t'"}[it.V] // (3: a raw tab character)
 	case "raw1":
 		return []string{"`r`", "`r(\"`"}[it.V]
 	case "rawopen":
